@@ -710,8 +710,8 @@ func c41(sum *lib.Summary) {
 		}
 	}
 	// small corpus cases and (much larger) generated cases go to separate shards of similar cost
-	c.cw = newWriter("cases_C41_corpus", 500)
-	genWriter := newWriter("cases_C41_gen", 130)
+	c.cw = newWriter("cases_C41_corpus", 250)
+	genWriter := newWriter("cases_C41_gen", 90)
 	sum.Rule = "values from the recursive type-directed generator (every cadence.Value kind, recursive/shared/parameterised types, boundary numbers of all 24 numeric kinds, " +
 		"Unicode strings and grapheme-cluster characters) and a fixed corpus: real json.Encode output parsed to an ordered JSON tree is compared with the Coq model's tree; " +
 		"real json.Decode of the encoding is checked in Go (re-encodes to the same bytes, equals the original after an independent erasure, embedded types Equal + same ID) " +
